@@ -144,6 +144,14 @@ class Session:
         self.requesters[system] = (th, holder)
         return system
 
+    def time_out(self, system):
+        """the waiting requester gives up because its timer really runs out (T6 for control requests, T3 for data requests: the
+        `except queue.Empty` path of the library, not a None put into its queue)"""
+        th, holder = self.requesters.pop(system)
+        if not holder["done_event"].wait(5):
+            raise common.Wedged("a request whose timeout is 0.25 s did not return within 5 s")
+        th.join(2)
+
     def give_up(self, system):
         """the waiting requester is released without a response: its queue entry disappears"""
         th, holder = self.requesters.pop(system)
@@ -241,6 +249,28 @@ def run_history(events, active=False):
                 sys_map[tag] = system
                 ses.settle()
                 coq_events.append(f"(EvOpen {L.z(stype)} {L.z(system)})")
+            elif kind == "open_timeout":
+                # a request whose timer really runs out: EvOpen, then - 0.25 s later - EvGiveUp
+                _, stype, tag = ev
+                if not ses.rig.conn.connected:
+                    continue
+                t = ses.rig.settings.timeouts
+                keep = (t.t3, t.t6)
+                t.t3 = t.t6 = 0.25
+                try:
+                    system = ses.open_request(stype)
+                finally:
+                    pass
+                sys_map[tag] = system
+                coq_events.append(f"(EvOpen {L.z(stype)} {L.z(system)})")
+                outs.append(ses.new_outputs())
+                states.append(ses.state())
+                try:
+                    ses.time_out(system)
+                finally:
+                    t.t3, t.t6 = keep
+                ses.settle()
+                coq_events.append(f"(EvGiveUp {L.z(system)})")
             elif kind == "giveup":
                 system = sys_map.get(ev[1])
                 if system is None or system not in ses.requesters:
@@ -285,6 +315,10 @@ def rand_history(rnd, n, active=False):
             evs.append(("open", rnd.choice([1, 3, 5, 0, 0]), tag))
         elif c < 0.78 and tags:
             evs.append(("giveup", rnd.choice(tags)))
+        elif c < 0.80:
+            tag = f"t{len(tags)}"
+            tags.append(tag)
+            evs.append(("open_timeout", rnd.choice([1, 3, 5, 0]), tag))
         elif c < 0.86:
             evs.append(("closed",))
             evs.append(("connected",))
@@ -337,6 +371,9 @@ def gen_cases(rnd, tier):
         [("connected",), ("open", 1, "a"), ("ctrl", 2, "a", 3), ("open", 1, "b"), ("ctrl", 2, "b", 0), ("open", 3, "c"), ("ctrl", 4, "c", 0)],
         [("connected",), ("ctrl", 1, 8, 0), ("closing",), ("ctrl", 5, 9, 0), ("ctrl", 1, 10, 0), ("ctrl", 3, 11, 0), ("closed",), ("connected",), ("ctrl", 5, 12, 0)],
         [("connected",), ("ctrl", 1, 8, 0), ("open", 5, "a"), ("data", "a", 1, 2, False, True), ("open", 5, "b"), ("giveup", "b"), ("ctrl", 6, "b", 0)],
+        # a request whose T6 / T3 really ran out is closed: a response that comes later answers nothing and changes nothing
+        [("connected",), ("open_timeout", 1, "a"), ("ctrl", 2, "a", 0), ("data", 9, 1, 1, True, True), ("ctrl", 1, 8, 0), ("open_timeout", 3, "b"), ("ctrl", 4, "b", 0),
+         ("data", 10, 1, 1, True, True), ("open_timeout", 5, "c"), ("ctrl", 6, "c", 0), ("open_timeout", 0, "d"), ("data", "d", 1, 2, False, True)],
         # D77: a data secondary answers an open DATA transaction only; with the system bytes of an open Linktest / Deselect / Select request it is
         # a message for the application, the control request stays open and is answered by its own response afterwards
         [("connected",), ("ctrl", 1, 8, 0), ("open", 5, "a"), ("data", "a", 1, 2, False, True), ("ctrl", 6, "a", 0), ("open", 0, "d"), ("data", "d", 1, 2, False, True),
